@@ -22,11 +22,15 @@ PROP = dict(
                        "Comdex.C14.price_errors_ignored_pinned", "Comdex.C14.twa_reads_test_own_activity",
                        "Comdex.C14.twa_reads_pinned", "Comdex.C14.price_swallow_reviewed_tight", "Comdex.C14.price_guard_pinned",
                        "Comdex.C14.sweeps_skip_controlled", "Comdex.C14.sweeps_pinned", "Comdex.C14.spec_lists",
+                       "Comdex.C14.position_writers_breaker_guarded", "Comdex.C14.breaker_unguarded_writers_tight",
+                       "Comdex.C14.breaker_list_writes_positions", "Comdex.C14.nonmsg_position_writers_pinned",
                        "Comdex.C14.snapshot_entries_only_from_active", "Comdex.C14.snapshot_completes_only_when_all_active",
                        "Comdex.C14.snapshot_status_false_while_inactive", "Comdex.C14.snapshot_price_only_from_active",
                        "Comdex.C14.never_active_no_snapshot_price", "Comdex.C14.never_active_unavailable",
                        "Comdex.C14.snapshot_entry_never_changes", "Comdex.C14.snapshot_monitor_sound"],
     harness_tests=["TestC14", "TestC14Snapshot"],
+    monitors=["owner_only", "rejected_no_change", "admin_only", "wasm_guard", "position_consistent", "privileged_only", "precondition_enforced",
+              "breaker_closed", "esm_closed", "cooloff", "cooloff_closed", "price_fail_closed", "sweep_skips", "snapshot_only_from_active"],
     trusted_base=_TB,
     assumptions=["'draw from' is read as drawing debt (vault MsgDraw, lend Draw): withdrawing from a locker or a lend position under the "
                  "breaker is not demanded by the text (lend withdraw is guarded anyway, locker withdraw/close is not; both recorded)",
@@ -50,8 +54,8 @@ META = dict(
     text="Kernel-checked: a breaker / ESM / cool-off / price-lookup guard on the way makes the delivery fail with the state unchanged "
          "(also when writes precede it); vault withdraw after ESM runs until the cool-off ends and is refused afterwards. Over the table "
          "regenerated from /repo: every handler the text names has the breaker guard (18) resp. the ESM guard (5 debt-minting handlers) "
-         "on every route to success before its first write; no price-lookup error is swallowed; all 7 liquidation sweeps / auction "
-         "starters test the breaker in the skipping direction before any write. The harness runs every handler under every control "
+         "on every route to success before its first write; no price-lookup error is swallowed; all 7 liquidation sweeps / auction starters and the 3 guarded reward-payout units "
+         "test the breaker in the skipping direction before any write. The harness runs every handler under every control "
          "setting on the real app and the real BeginBlockers for a controlled app. After a shutdown: the price snapshot only ever "
          "takes the TWA of a found, active feed and completes only in a block without an inactive feed, for every sequence of blocks "
          "and feed states (induction); the real esm.BeginBlocker is replayed on that model block by block and the snapshot's consumers "
